@@ -294,6 +294,17 @@ fn main() {
         );
         s.part("threaded", &rule, false, cases, |_i, rng, out| threaded::case(total, timeout_s, rng, out));
     }
+    if want("close-race") {
+        let cases = s.args.budget(32, 800).max(2);
+        let rounds = if cfg!(miri) { 3 } else { 250 };
+        s.part(
+            "close-race",
+            "250 fresh channels per case (capacity 1-300): one half is polled in a tight loop on another OS thread (no-op waker) while this thread drops the other half at a random moment and then raises a flag; every poll that started after the flag was seen must find the channel closed - a write fails, reads drain at most the capacity and then reach end-of-stream; judged on polls ordered after the drop by the flag, never on timing; non-trivial when at least one round was judged; distinct by parameters",
+            false,
+            cases,
+            |_i, rng, out| threaded::close_race_case(rounds, rng, out),
+        );
+    }
 
     s.finish()
 }
